@@ -709,10 +709,18 @@ impl Context {
         code: &'a str,
         code_source: CodeSource,
     ) -> Result<(Vec<typed_ast::Statement<'a>>, InterpreterResult)> {
-        let statements = self
-            .resolver
-            .resolve(code, code_source.clone())
-            .map_err(NumbatError::ResolverError)?;
+        // Modules that get imported by this input are only kept as "imported" if the
+        // whole input succeeds. Otherwise, their definitions are rolled back below and
+        // a later `use` of the same module would silently do nothing.
+        let imported_modules_old = self.resolver.imported_modules.clone();
+
+        let statements = match self.resolver.resolve(code, code_source.clone()) {
+            Ok(statements) => statements,
+            Err(err) => {
+                self.resolver.imported_modules = imported_modules_old;
+                return Err(Box::new(NumbatError::ResolverError(err)));
+            }
+        };
 
         let prefix_transformer_old = self.prefix_transformer.clone();
 
@@ -732,6 +740,7 @@ impl Context {
             //     >>> fn f(h_) = 1     # <-- here we want to use 'f' again
             //
             self.prefix_transformer = prefix_transformer_old.clone();
+            self.resolver.imported_modules = imported_modules_old.clone();
         }
 
         let transformed_statements = result?;
@@ -756,6 +765,7 @@ impl Context {
             //
             self.prefix_transformer = prefix_transformer_old.clone();
             self.typechecker = typechecker_old.clone();
+            self.resolver.imported_modules = imported_modules_old.clone();
 
             if self.load_currency_module_on_demand
                 && let Err(NumbatError::TypeCheckError(TypeCheckError::UnknownIdentifier(
@@ -830,6 +840,7 @@ impl Context {
             self.prefix_transformer = prefix_transformer_old;
             self.typechecker = typechecker_old;
             self.interpreter = interpreter_old;
+            self.resolver.imported_modules = imported_modules_old;
         }
 
         let result = result.map_err(|err| NumbatError::RuntimeError(*err))?;
